@@ -616,69 +616,73 @@ def run_units(repo, verif, obls):
         by_unit.setdefault((unit, o.features), []).append((o, fn))
     results, infos = {}, {}
     scratch = Path(tempfile.mkdtemp(prefix="verif_verus_"))
-    try:
-        for (unit, feats), items in by_unit.items():
-            checks = "checks" in feats
-            base, defs = unit, None
-            if "@" in unit:
-                base, ds = unit.split("@", 1)
-                defs = dict(kv.split("=", 1) for kv in ds.split(";"))
-            tmpl = verif / "verus" / "units" / f"{base}.rs"
-            try:
-                text, info = build_unit(repo, tmpl, checks, defs)
-            except ExtractError as e:
-                for o, fn in items:
-                    results[o.id] = dict(status="undecided", reason=f"extraction: {e}")
-                continue
-            up = scratch / (re.sub(r"[^A-Za-z0-9_]", "_", unit) + ("_checks" if checks else "") + ".rs")
-            up.write_text(text)
-            keep = os.environ.get("VERIF_KEEP_UNITS")
-            if keep:
-                Path(keep).mkdir(parents=True, exist_ok=True)
-                shutil.copy(up, Path(keep) / up.name)
-            try:
-                rc, js, err, wall = run_verus(up)
-            except subprocess.TimeoutExpired:
-                for o, fn in items:
-                    results[o.id] = dict(status="undecided", reason="verus timeout")
-                continue
-            vr = (js or {}).get("verification-results", {})
-            info.update(verified=vr.get("verified"), errors=vr.get("errors"), wall_s=round(wall, 2),
-                        smt_ms=(js or {}).get("times-ms", {}).get("smt", {}).get("total") if js else None,
-                        assumptions=scan_assumptions(text))
-            infos[unit + ("+checks" if checks else "")] = info
-            if js is None or vr.get("encountered-vir-error") or (rc != 0 and not vr):
-                msg = (err or "")[-1500:]
-                for o, fn in items:
-                    results[o.id] = dict(status="undecided", reason="verus did not verify the unit (syntax/mode error or crash): " + msg)
-                continue
-            # map errors to functions
-            failed = {}
-            for m in re.finditer(r"^(error[^\n]*)\n\s*--> [^\n:]*:(\d+):\d+", err, re.M):
-                fnn = fn_at_line(text, int(m.group(2)))
-                failed.setdefault(fnn, []).append(m.group(1).strip())
-            rlimit = "Resource limit (rlimit) exceeded" in err or "rlimit" in err.lower()
-            per_fn_time = wall / max(1, len(items))
+    def one(unit, feats, items):
+        checks = "checks" in feats
+        base, defs = unit, None
+        if "@" in unit:
+            base, ds = unit.split("@", 1)
+            defs = dict(kv.split("=", 1) for kv in ds.split(";"))
+        tmpl = verif / "verus" / "units" / f"{base}.rs"
+        try:
+            text, info = build_unit(repo, tmpl, checks, defs)
+        except ExtractError as e:
             for o, fn in items:
-                if fn == "*":
-                    fl = [f"{k}: {x}" for k, v in failed.items() for x in v]
+                results[o.id] = dict(status="undecided", reason=f"extraction: {e}")
+            return
+        up = scratch / (re.sub(r"[^A-Za-z0-9_]", "_", unit) + ("_checks" if checks else "") + ".rs")
+        up.write_text(text)
+        keep = os.environ.get("VERIF_KEEP_UNITS")
+        if keep:
+            Path(keep).mkdir(parents=True, exist_ok=True)
+            shutil.copy(up, Path(keep) / up.name)
+        try:
+            rc, js, err, wall = run_verus(up)
+        except subprocess.TimeoutExpired:
+            for o, fn in items:
+                results[o.id] = dict(status="undecided", reason="verus timeout")
+            return
+        vr = (js or {}).get("verification-results", {})
+        info.update(verified=vr.get("verified"), errors=vr.get("errors"), wall_s=round(wall, 2),
+                    smt_ms=(js or {}).get("times-ms", {}).get("smt", {}).get("total") if js else None,
+                    assumptions=scan_assumptions(text))
+        infos[unit + ("+checks" if checks else "")] = info
+        if js is None or vr.get("encountered-vir-error") or (rc != 0 and not vr):
+            msg = (err or "")[-1500:]
+            for o, fn in items:
+                results[o.id] = dict(status="undecided", reason="verus did not verify the unit (syntax/mode error or crash): " + msg)
+            return
+        # map errors to functions
+        failed = {}
+        for m in re.finditer(r"^(error[^\n]*)\n\s*--> [^\n:]*:(\d+):\d+", err, re.M):
+            fnn = fn_at_line(text, int(m.group(2)))
+            failed.setdefault(fnn, []).append(m.group(1).strip())
+        rlimit = "Resource limit (rlimit) exceeded" in err or "rlimit" in err.lower()
+        per_fn_time = wall / max(1, len(items))
+        for o, fn in items:
+            if fn == "*":
+                fl = [f"{k}: {x}" for k, v in failed.items() for x in v]
+            else:
+                fl = failed.get(fn, [])
+            if not fl and (vr.get("errors", 0) == 0 or fn != "*"):
+                if fn != "*" and not re.search(r"\bfn\s+%s\b" % re.escape(fn), text):
+                    results[o.id] = dict(status="undecided", reason=f"function {fn} not present in unit {unit}")
                 else:
-                    fl = failed.get(fn, [])
-                if not fl and (vr.get("errors", 0) == 0 or fn != "*"):
-                    if fn != "*" and not re.search(r"\bfn\s+%s\b" % re.escape(fn), text):
-                        results[o.id] = dict(status="undecided", reason=f"function {fn} not present in unit {unit}")
-                    else:
-                        results[o.id] = dict(status="discharged", backend="verus/z3", time_s=round(per_fn_time, 2), unit=unit)
-                elif all("rlimit" in x.lower() or "resource limit" in x.lower() for x in fl):
-                    results[o.id] = dict(status="undecided", reason="verus resource limit: " + "; ".join(fl)[:300])
-                else:
-                    # extract the diagnostic block(s) for the replay file
-                    blocks = []
-                    for m in re.finditer(r"^error[^\n]*\n(?:[^\n]*\n){0,14}", err, re.M):
-                        mm = re.search(r"--> [^\n:]*:(\d+):", m.group(0))
-                        if mm and (fn == "*" or fn_at_line(text, int(mm.group(1))) == fn):
-                            blocks.append(m.group(0))
-                    results[o.id] = dict(status="violated", failed=sorted(set(fl)), output="\n".join(blocks)[:4000], unit=unit)
+                    results[o.id] = dict(status="discharged", backend="verus/z3", time_s=round(per_fn_time, 2), unit=unit)
+            elif all("rlimit" in x.lower() or "resource limit" in x.lower() for x in fl):
+                results[o.id] = dict(status="undecided", reason="verus resource limit: " + "; ".join(fl)[:300])
+            else:
+                # extract the diagnostic block(s) for the replay file
+                blocks = []
+                for m in re.finditer(r"^error[^\n]*\n(?:[^\n]*\n){0,14}", err, re.M):
+                    mm = re.search(r"--> [^\n:]*:(\d+):", m.group(0))
+                    if mm and (fn == "*" or fn_at_line(text, int(mm.group(1))) == fn):
+                        blocks.append(m.group(0))
+                results[o.id] = dict(status="violated", failed=sorted(set(fl)), output="\n".join(blocks)[:4000], unit=unit)
+
+    try:
+        from concurrent.futures import ThreadPoolExecutor
+        with ThreadPoolExecutor(max_workers=int(os.environ.get('VERIF_VERUS_JOBS', '8'))) as ex:
+            list(ex.map(lambda kv: one(kv[0][0], kv[0][1], kv[1]), list(by_unit.items())))
     finally:
         shutil.rmtree(scratch, ignore_errors=True)
     return results, infos
